@@ -304,3 +304,48 @@ def gen_nested(repo):
             f"/-- `read_row_group_arrays` (line {keysel[1]}) recognises the key leaf by the LAST path component -/\n"
             f"def keyByLeafName : Bool := {'true' if keysel[0] == 'last' else 'false'}\n"
             "end PqV.Gen.Nested\n")
+
+
+@register("SkipDef")
+def gen_skipdef(repo):
+    """core.skip_definition_bytes (the reader's shortcut over the definition levels of fastparquet's own
+    null-free pages) and the layout writer.make_definitions gives such a block: the constants of both."""
+    src = open(os.path.join(repo, "fastparquet", "core.py")).read()
+    fn = find_func(ast.parse(src), "skip_definition_bytes")
+    body = [n for n in fn.body if not (isinstance(n, ast.Expr) and isinstance(n.value, ast.Constant))]
+    try:
+        seek0 = body[0].value
+        assert ast.unparse(seek0.func).endswith(".seek") and ast.unparse(seek0.args[1]) == "1"
+        base = int(ast.unparse(seek0.args[0]))
+        asg = body[1]
+        assert isinstance(asg, ast.Assign) and isinstance(asg.value, ast.BinOp) and isinstance(asg.value.op, ast.FloorDiv)
+        assert ast.unparse(asg.value.left) == fn.args.args[1].arg
+        div = int(ast.unparse(asg.value.right))
+        loop = body[2]
+        assert isinstance(loop, ast.While) and ast.unparse(loop.test) == ast.unparse(asg.targets[0])
+        step = int(ast.unparse(loop.body[0].value.args[0]))
+        aug = loop.body[1]
+        assert isinstance(aug, ast.AugAssign) and isinstance(aug.op, ast.FloorDiv)
+        shrink = int(ast.unparse(aug.value))
+        assert len(body) == 3 and len(loop.body) == 2
+    except Exception as e:  # noqa
+        raise Unsupported("skip_definition_bytes has an unknown shape: " + type(e).__name__)
+    wsrc = open(os.path.join(repo, "fastparquet", "writer.py")).read()
+    wfn = find_func(ast.parse(wsrc), "make_definitions")
+    branch = [n for n in wfn.body if isinstance(n, ast.If) and ast.unparse(n.test) == "no_nulls"]
+    if len(branch) != 1:
+        raise Unsupported("make_definitions: the no_nulls branch was not found")
+    text = "\n".join(ast.unparse(s) for s in branch[0].body)
+    import re as _re
+    m = _re.search(r"encode_unsigned_varint\(l << (\d+), temp\)", text)
+    m2 = _re.search(r"temp\.write_byte\((\d+)\)", text)
+    m3 = _re.search(r"struct\.pack\('<I', temp\.tell\(\)\) \+ temp\.so_far\(\)", text)
+    if not (m and m2 and m3) or text.count("write_byte") != 1:
+        raise Unsupported("make_definitions: the null-free block has an unknown layout: " + text[:120])
+    return ("-- REGENERATED on every run by tools/translate_callsites.py from fastparquet/core.py and writer.py — do not edit\n"
+            "namespace PqV.Gen.SkipDef\n"
+            f"/-- `skip_definition_bytes` (core.py line {fn.lineno}): `seek(base, 1); n = num // div; while n: seek(step, 1); n //= shrink` -/\n"
+            f"def base : Nat := {base}\ndef div : Nat := {div}\ndef step : Nat := {step}\ndef shrink : Nat := {shrink}\n"
+            f"/-- `make_definitions` (writer.py line {wfn.lineno}), null-free v1 block: 4-byte length, varint(l << shift), one byte `value` -/\n"
+            f"def lenPrefix : Nat := 4\ndef shift : Nat := {m.group(1)}\ndef value : Nat := {m2.group(1)}\n"
+            "end PqV.Gen.SkipDef\n")
